@@ -802,6 +802,10 @@ func (c *Compiler) filteredDuplicatedFields(fields []*StructFieldCode, duplicate
 		if _, exists := duplicatedFieldMap[field]; exists {
 			continue
 		}
+		if field.tag.IsOmitEmpty && field.typ.Kind() == reflect.Array && field.typ.Len() == 0 {
+			// a zero-length array is always empty: with omitempty its member is never written ( as in encoding/json )
+			continue
+		}
 		filteredFields = append(filteredFields, field)
 	}
 	return filteredFields
